@@ -86,6 +86,7 @@ type KVParams struct {
 	Paging      bool // prefix scans with offset/limit over 0..n+1
 	PSearch     bool
 	BadEnds     float64 // probability that a write transaction ends in rollback / fn error
+	ManyKeys    float64 // probability that the run uses a large key set (B+ tree splits)
 	BigP        float64 // probability that a multi-op write transaction carries an oversized entry (its commit must fail)
 	Restart     float64 // probability of a dirty restart step after a transaction
 	Merge       float64 // probability of a Merge step after a transaction
@@ -192,12 +193,27 @@ func KV(r *core.Rng, p KVParams) *prog.Program {
 	g := &G{R: r}
 	pg := &prog.Program{Cfg: Config(r, p.Modes, p.Segs)}
 	g.Keys = subset(r, KVKeys, 2, 8)
+	if p.ManyKeys > 0 && r.Bool(p.ManyKeys) {
+		// enough keys in one bucket to split B+ tree leaves and inner nodes
+		// (order 8), inserted in random order
+		n := r.Range(9, 40)
+		g.Keys = subset(r, KVKeys, 1, 4)
+		for i := 0; i < n; i++ {
+			g.Keys = append(g.Keys, fmt.Sprintf("k%02d", r.Intn(60)))
+		}
+	}
 	nb := p.Buckets
 	if nb <= 0 {
 		nb = 1
 	}
 	g.Bkts = subset(r, KVBuckets, 1, nb)
 	ntx := r.Range(p.MinTx, p.MaxTx)
+	if len(g.Keys) > 12 {
+		ntx += len(g.Keys) / 2
+		if p.MaxOps < 6 {
+			p.MaxOps = 6
+		}
+	}
 	for i := 0; i < ntx; i++ {
 		if p.Advance && r.Bool(0.35) {
 			pg.Steps = append(pg.Steps, advanceStep(r))
